@@ -10,7 +10,8 @@ KNOWN_CLASSES = ['root', 'namespace', 'component', 'system', 'foreign', 'interfa
                  'formals', 'types', 'fields', 'range', 'data', 'instance', 'instances', 'binding',
                  'bindings', 'end-point', 'import', 'file-name', 'scope_name', 'comment']
 BAD_IDENTS = ['', '1a', 'a b', 'a.b', 'a-b', 'é', 'a\n', ' ', '::', 'a::b', '.']
-OPS = ['delete', 'retype', 'retag', 'bad_ident', 'empty_list', 'replace', 'bad_string', 'dup']
+OPS = ['delete', 'retype', 'retag', 'bad_ident', 'empty_list', 'replace', 'bad_string', 'dup',
+       'retype_class']
 
 mutation = st.fixed_dictionaries({
     'at': st.integers(0, 10 ** 6),
@@ -76,6 +77,8 @@ def apply(doc, muts):
             cands = [(c, k) for c, k in slots if isinstance(c[k], str) and k != '<class>']
         elif op == 'dup':
             cands = [(c, k) for c, k in slots if isinstance(c, list)]
+        elif op == 'retype_class':
+            cands = [(c, k) for c, k in slots if k == '<class>']
         else:
             cands = slots
         cands = cands or slots
@@ -95,6 +98,11 @@ def apply(doc, muts):
             cont[key] = val + 'x'
         elif op == 'dup' and isinstance(cont, list):
             cont.insert(key, copy.deepcopy(val))
+        elif op == 'retype_class':
+            # the class tag itself becomes a value of another JSON type
+            cont[key] = copy.deepcopy([None, True, 7, [], {}, ['enum'], {'<class>': 'enum'}, 3.5]
+                                      [(m['at'] // 3) % 8])
+            op = f'retype_class-{type(cont[key]).__name__}'
         elif op == 'retype':
             # another JSON type than the current one
             order = [None, True, 7, 'str', [], {}]
